@@ -63,3 +63,44 @@ func zzH_xzcost() {
 	verifReach("end")
 	verifAssert(XZCost(m, o1) <= XZCost(m, o2), "XZCost decreases with a larger offset [C11]")
 }
+
+// zzH_bitset: the bitset GSAP uses as its search set, against a set model: a
+// first group of inserts, clear (the backing array is kept), a second group of
+// inserts (growth to the right and, in place, to the left), then memberBefore /
+// memberAfter at an arbitrary position. This is the call pattern of gsap.sort().
+func zzH_bitset() {
+	const U = 192 // three words
+	var b bitset
+	n1 := verifChoose("n1", 3)
+	for i := 0; i < n1; i++ {
+		x := verifInt(verifName("x", i))
+		verifAssume(0 <= x && x < U)
+		b.insert(x)
+	}
+	b.clear()
+	n2 := verifChoose("n2", 4)
+	ys := make([]int, n2)
+	for i := range ys {
+		ys[i] = verifInt(verifName("y", i))
+		verifAssume(0 <= ys[i] && ys[i] < U)
+		b.insert(ys[i])
+	}
+	q := verifInt("q")
+	verifAssume(0 <= q && q < U)
+	// set model: the members are exactly the ys
+	wantB, okB := -1, false
+	wantA, okA := U, false
+	for i := range ys {
+		isB := ys[i] < q
+		wantB = verifIteInt(verifAnd(isB, ys[i] > wantB), ys[i], wantB)
+		okB = verifOr(okB, isB)
+		isA := ys[i] > q
+		wantA = verifIteInt(verifAnd(isA, ys[i] < wantA), ys[i], wantA)
+		okA = verifOr(okA, isA)
+	}
+	gotB, gokB := b.memberBefore(q)
+	gotA, gokA := b.memberAfter(q)
+	verifAssert(gokB == okB && verifImplies(okB, gotB == wantB), "bitset.memberBefore differs from the set model (members lost or stale after clear/regrowth) [C12,C13]")
+	verifAssert(gokA == okA && verifImplies(okA, gotA == wantA), "bitset.memberAfter differs from the set model (members lost or stale after clear/regrowth) [C12,C13]")
+	verifReach("end")
+}
